@@ -392,5 +392,6 @@ UNITS_APARMAP = [AsyncParmapperIter, AsyncParmapperIterProcess, AsyncParmapperFu
 
 from contracts.server import ACallUnit, AStreamUnit, AEnqueueUnit, AGatherUnit, AWaitUnit      # noqa: E402
 from contracts.buffer import ParmapperAsyncIter, DoAsyncMain        # noqa: E402
-UNITS = [AFeed, AFeedNoPre, AConsumer, AConsumerNoPre] + UNITS_APARMAP + [ParmapperAsyncIter, DoAsyncMain, ACallUnit, AStreamUnit, AEnqueueUnit, AGatherUnit, AWaitUnit, C16Lemma]
+from contracts.ctors import STREAM_CTORS      # noqa: E402
+UNITS = [AFeed, AFeedNoPre, AConsumer, AConsumerNoPre] + UNITS_APARMAP + list(STREAM_CTORS) + [ParmapperAsyncIter, DoAsyncMain, ACallUnit, AStreamUnit, AEnqueueUnit, AGatherUnit, AWaitUnit, C16Lemma]
 NOT_DECIDED = ('that loop.run_in_executor / create_task / run_coroutine_threadsafe deliver the outcome of what they wrap (trusted asyncio)',)
